@@ -240,7 +240,8 @@ def apply_op(v, m, op, a, b, c, step):
             return True
         f = m.fields[_mod(a, nf)]
         j = m.fields.index(f)
-        v.remove_fields(f if _mod(b, 2) else [f])
+        sp = _mod(b, 3)                              # one name as a string, as a list, or listed twice (removed once)
+        v.remove_fields(f if sp == 1 else ([f] if sp == 0 else [f, f]))
         del m.fields[j]
         del m.units[j]
         for cell in m.cells.values():
